@@ -129,12 +129,12 @@ def search(ctx):
         ctx.tried("identities", (nx, ny, kind, i))
         try:
             nm = normalize(im)
-            if abs(float(nm.values.mean()) - 1) > 1e-12:
+            if not (abs(float(nm.values.mean()) - 1) <= 1e-12):
                 ctx.violation("C18:normalize-mean", "normalize: mean %r != 1" % float(nm.values.mean()), dict(kind="normalize", **info))
-            if np.abs(normalize(nm).values - nm.values).max() > 1e-12 * np.abs(nm.values).max():
+            if not (np.abs(normalize(nm).values - nm.values).max() <= 1e-12 * np.abs(nm.values).max()):
                 ctx.violation("C18:normalize-idempotent", "normalize not idempotent", dict(kind="normalize", **info))
             c = float(10.0 ** rng.uniform(-3, 3))
-            if np.abs(normalize(mk(a * c, spacing=(0.1, 0.25))).values - nm.values).max() > 1e-12 * np.abs(nm.values).max():
+            if not (np.abs(normalize(mk(a * c, spacing=(0.1, 0.25))).values - nm.values).max() <= 1e-12 * np.abs(nm.values).max()):
                 ctx.violation("C18:normalize-scale", "normalize not invariant to rescaling by %r" % c, dict(kind="normalize", c=c, **info))
             if not _attrs_kept(im, nm) or not np.array_equal(nm.x, im.x):
                 ctx.violation("C18:normalize-metadata", "normalize lost metadata/coords", dict(kind="normalize", **info))
@@ -145,7 +145,7 @@ def search(ctx):
             h = bg_correct(im, bg, df)
             ref = (im.values - df.values) / (bg.values - df.values)
             ok = (bg.values - df.values) > 0
-            if np.abs(h.values - ref)[ok].max() > 1e-12 * np.abs(ref[ok]).max():
+            if not (np.abs(h.values - ref)[ok].max() <= 1e-12 * np.abs(ref[ok]).max()):
                 ctx.violation("C18:bg", "bg_correct != (raw-dark)/(bg-dark)", dict(kind="bg", **info))
             s = bg_correct(im, im)
             if np.abs(s.values - 1).max() != 0:
@@ -174,7 +174,7 @@ def search(ctx):
                     want = (b[pi - 1, pj] + b[pi + 1, pj]) / 2
                 b[pi, pj] = 0
                 zf = zero_filter(mk(b)).values[0]
-                if abs(zf[pi, pj] - want) > 1e-12 * abs(want):
+                if not (abs(zf[pi, pj] - want) <= 1e-12 * abs(want)):
                     ctx.violation("C18:zero-filter-edge", "edge zero not replaced by the mean of its 2 edge neighbours",
                                   dict(kind="zero", pos=[pi, pj], **info))
                 b = a.copy()
@@ -189,7 +189,7 @@ def search(ctx):
             d0 = detrend(im).values
             d1 = detrend(mk(a + pl[0] + pl[1] * ii + pl[2] * jj, spacing=(0.1, 0.25))).values
             sc = max(np.abs(a).max(), np.abs(pl).max() * max(nx, ny))
-            if np.abs(d0 - d1).max() > 1e-10 * sc:
+            if not (np.abs(d0 - d1).max() <= 1e-10 * sc):
                 ctx.violation("C18:detrend-plane", "detrend(img + plane) != detrend(img) (%.3g)" % np.abs(d0 - d1).max(),
                               dict(kind="detrend", plane=pl.tolist(), **info))
             if not _attrs_kept(im, detrend(im)):
@@ -251,7 +251,7 @@ def search(ctx):
         got = center_find(holo)
         err = math.hypot(got[0] - cx, got[1] - cy)
         info = dict(kind="center", N=N, center=[cx, cy], r=r, n=nidx, z=z)
-        if err > 1.0:
+        if not (err <= 1.0):
             ctx.violation("C18:center-find", "centre finder off by %.2f px" % err, dict(got=list(map(float, got)), **info))
         pri = make_center_priors(holo)
         if abs(pri[0].mu - got[0] * sp) > 1e-9 or abs(pri[1].mu - got[1] * sp) > 1e-9:
